@@ -24,6 +24,7 @@ def to_real_data(d: Any):
 
 import re as _re
 
+_NUM = _re.compile(r"-?\d+\.\d+(?:[eE][-+]?\d+)?")
 _NP_REPR = _re.compile(r"np\.float64\(([^()]*)\)")
 
 
@@ -83,6 +84,16 @@ def close(a: Any, b: Any, rel: float = 1e-9) -> bool:
         return len(a) == len(b) and all(close(x, y, rel) for x, y in zip(a, b))
     if isinstance(a, dict) and isinstance(b, dict):
         return set(a) == set(b) and all(close(a[k], b[k], rel) for k in a)
+    if isinstance(a, str) and isinstance(b, str) and a != b:
+        # strings rendered from floats (templates): compare embedded numbers with the same tolerance
+        pa, pb = _NUM.split(a), _NUM.split(b)
+        na, nb = _NUM.findall(a), _NUM.findall(b)
+        if pa == pb and len(na) == len(nb) and na:
+            try:
+                return all(close(float(x), float(y), rel) for x, y in zip(na, nb))
+            except ValueError:
+                return False
+        return False
     return a == b
 
 
